@@ -350,13 +350,12 @@ def monC20 (h : Hist) : Option String :=
           else if !c.deadline then some s!"exchange {ri.n}: background revalidation request carries no deadline"
           else if c.t0 ≠ x.res.t0 then some s!"exchange {ri.n}: background revalidation started {c.t0 - x.res.t0} ns after the response was returned"
           else
-            -- the caller's own deadline (dl:<ns> from the start of the exchange) also bounds the background request
-            let T := match ri.cancel.splitOn ":" with
-              | ["dl", d] => min (effTimeout h) (toInt d)
-              | _ => effTimeout h
+            -- the background request is bounded by the configured timeout and by nothing else: not by the caller's
+            -- deadline, and not by the caller cancelling its context before or after it got the response (an
+            -- http.Client with a Timeout cancels it as soon as the body has been read) — C20 quantifies over
+            -- "caller contexts cancelled before or after the response is returned"
+            let T := effTimeout h
             let rp ← h.reply ri.n c.k
-            let callerCancelled := ri.cancel == "before" || ri.cancel == "after"
-            if callerCancelled then none else
             if rp.kind == "hang" || rp.delay > T then
               if c.outcome == "cancel" && c.t1 - c.t0 = T then none
               else some s!"exchange {ri.n}: slow background request ended with {c.outcome} after {c.t1 - c.t0} ns, timeout is {T} ns"
